@@ -271,6 +271,48 @@ def shrink_bucket(mod_name: str, tier: str, seed: int, shard: int, nshards: int,
         return {"error": traceback.format_exc()}
 
 
+DEFAULT_FUZZ = {"quick": 0, "thorough": 6000}  # atheris executions per worker (8 workers)
+
+
+def run_fuzz_workers(prop: str, tier: str, seed: int, workers: int, runs: int) -> List[Dict[str, Any]]:
+    """Coverage-guided phase: `workers` fresh interpreters (the package has to be instrumented at import) running
+    vlib/fuzz_target.py; their Ctx exports are merged like those of the Hypothesis shards."""
+    import subprocess
+    import tempfile
+
+    scratch = os.path.join(VERIF, ".scratch")
+    os.makedirs(scratch, exist_ok=True)
+    outdir = tempfile.mkdtemp(prefix=f"fuzzout_{prop}_", dir=scratch)
+    env = dict(os.environ, PYTHONHASHSEED="0", APISCHEMA_VERIF="1")
+    procs = []
+    for w in range(workers):
+        out = os.path.join(outdir, f"w{w}.json")
+        log = open(os.path.join(outdir, f"w{w}.log"), "w")
+        procs.append((subprocess.Popen([sys.executable, os.path.join(VERIF, "vlib", "fuzz_target.py"), prop, tier, str(seed), str(w), str(runs), out],
+                                       stdout=log, stderr=subprocess.STDOUT, env=env, cwd=VERIF), out, log))
+    res = []
+    for p, out, log in procs:
+        try:
+            code = p.wait(timeout=WALL_LIMIT[tier])
+        except subprocess.TimeoutExpired:
+            p.kill()
+            code = -9
+        log.close()
+        if os.path.exists(out):
+            with open(out) as f:
+                doc = json.load(f)
+        else:
+            with open(log.name) as f:
+                doc = {"error": f"atheris worker exited with status {code} without a result\n" + f.read()[-3000:]}
+        if "error" not in doc and not doc.get("final"):
+            doc["budget_hit"] = True  # killed or ended early: what it explored still counts, the campaign is marked incomplete
+        res.append(doc)
+    import shutil
+
+    shutil.rmtree(outdir, ignore_errors=True)
+    return res
+
+
 def load_corpus(prop: str):
     d = os.path.join(VERIF, "corpus", prop)
     if not os.path.isdir(d):
@@ -292,7 +334,7 @@ def write_replay(prop: str, tier: str, seed: int, bucket: Dict[str, Any], mod) -
     path = os.path.join("replays", name)
     doc = {
         "property": prop, "tier": tier, "seed": seed, "signature": bucket["sig"],
-        "detail": bucket.get("detail", ""), "count": bucket.get("count", 1),
+        "detail": bucket.get("detail", ""), "count": bucket.get("count", 1), "found_by": bucket.get("phase", "?"),
         "case": bucket["case"],
     }
     if hasattr(mod, "describe"):
@@ -349,6 +391,7 @@ def main(argv: List[str]) -> int:
     ap.add_argument("--shards", type=int)
     ap.add_argument("--examples", type=int)
     ap.add_argument("--no-shrink", action="store_true")
+    ap.add_argument("--fuzz", type=int, help="atheris executions per worker (0: none; default: the module's FUZZ[tier])")
     args = ap.parse_args(argv)
     prop = args.prop.upper()
     if prop not in ALL_IDS:
@@ -400,6 +443,23 @@ def main(argv: List[str]) -> int:
         if "error" in r:
             print("HARNESS ERROR in shard:\n" + r["error"], file=sys.stderr)
             return 2
+    fuzz_runs = args.fuzz if args.fuzz is not None else getattr(mod, "FUZZ", DEFAULT_FUZZ if hasattr(mod, "strategy") else {}).get(args.tier, 0)
+    fuzz_info = None
+    if fuzz_runs and hasattr(mod, "strategy"):
+        fres = run_fuzz_workers(prop, args.tier, seed, getattr(mod, "FUZZ_WORKERS", 8), fuzz_runs)
+        for r in fres:
+            if "error" in r:
+                print("HARNESS ERROR in atheris worker:\n" + r["error"], file=sys.stderr)
+                return 2
+        seen = set()
+        for r in results:
+            seen.update(r["nontrivial"])
+        fuzz_info = {"engine": "atheris (libFuzzer) over Hypothesis fuzz_one_input, branch coverage of the apischema package as feedback",
+                     "workers": len(fres), "executions": sum(r.get("atheris_executions", 0) for r in fres),
+                     "cases_evaluated": sum(r["hist"].get("atheris:cases", 0) for r in fres),
+                     "evaluations": sum(r["evaluations"] for r in fres),
+                     "distinct_nontrivial_not_seen_by_hypothesis": len(set().union(*[set(r["nontrivial"]) for r in fres]) - seen)}
+        results = results + fres
 
     evaluations = sum(r["evaluations"] for r in results)
     nontrivial = set()
@@ -456,6 +516,8 @@ def main(argv: List[str]) -> int:
         "budget_hit": budget_hit,
         "violation_buckets": [b["sig"] for b in merged.values()][:50],
     }
+    if fuzz_info:
+        cov["coverage_guided"] = fuzz_info
     if hasattr(mod, "finalize"):
         mod.finalize(cov, args.tier)
     write_evidence(mod, args.tier, seed, cov, wall, violations)
